@@ -767,7 +767,7 @@ class Converter:
                 non_scalar_indices.append((axis, elt))
         if not (sliced_indices or scalar_indices or non_scalar_indices):
             # Edge case: no index specified. Eg. A[:, :]
-            return self._emit1([target], "Identity", [var_name])
+            return self._emit1([target], "Identity", [var])
 
         if sliced_indices or len(scalar_indices) > 1:
             # We emit a Slice operation if we have any indices like 1:5:2 or if the number of
@@ -777,6 +777,7 @@ class Converter:
             axes = []
             steps = []
             squeezed_axes = []
+            removed_axes = squeezed_axes  # kept for renumbering the Gather axes below
             for axis, expr in scalar_indices:
                 # Treat a scalar index i as slice "i:i+1:1", but squeeze the axis finally.
                 # TODO: handle negative i
@@ -844,6 +845,7 @@ class Converter:
                 result = self._emit1([result_name], "Slice", slice_inputs)
         else:
             result = var
+            removed_axes = []
         non_scalar_indices.extend(scalar_indices)
         if non_scalar_indices:
             last_axis, _ = non_scalar_indices[-1]
@@ -852,7 +854,9 @@ class Converter:
             last_axis = None
         for axis, index_expr in non_scalar_indices:
             index_value = self._translate_expr(index_expr)
-            axis_attr = ir.AttrInt64("axis", axis)
+            # Axes squeezed away in front of this one have shifted it.
+            gather_axis = axis - sum(1 for removed in removed_axes if removed < axis)
+            axis_attr = ir.AttrInt64("axis", gather_axis)
             # use Gather to perform indexing
             # Assign gathered value to either temporary or final target
             if axis != last_axis:  # use temporary to store result of Gather
